@@ -14,16 +14,22 @@
    bus_transaction_send_error_reply          [error_reply]
    send_one_message / bus_dispatch_matches   [dispatch_matches]
    bus_dispatch                              [do_send]
-   bus_driver_handle_hello                   [do_connect]
+   bus_driver_handle_hello                   [do_connect]  (+ allow_unix_user_function: a refused connection is closed)
+   bus_driver_handle_reload_config, bus_context_reload_config,
+   process_config_every_time, bus_connections_reload_policy   [do_reload], [reload_conn]
+   create_unique_client_name                 [unique_name]
    bus_registry_acquire_service (flags = 0)  [request_name]
    bus_driver_handle_add_match               [add_match] (two fixed rules: "type='signal'" and "eavesdrop='true'")
 
    What a client can observe is a list of deliveries (connection, what). *)
-From DV Require Import Lib.Base Gen.Tables Gen.PolicyTables Wire.Names Policy.Policy.
+From DV Require Import Lib.Base Gen.Tables Gen.PolicyTables Wire.Names Policy.Policy Policy.PolicyConfig.
 Local Open Scope N_scope.
 
 Record conn := mkConn {
+  c_alive : bool;          (* false: the connection was refused by the user=/group= rules and closed *)
   c_uid : N;               (* authenticated unix user *)
+  c_gids : list N;         (* groups of the credentials (SO_PEERGROUPS, sorted) *)
+  c_atc : bool;            (* at console *)
   c_rules : list rule;     (* BusConnectionData.policy: fixed at Hello *)
   c_name : bytes;          (* unique name *)
   c_sig : bool;            (* has the match rule "type='signal'" *)
@@ -36,14 +42,17 @@ Record bus := mkBus {
   b_policy : policy;
   b_conns : list conn;
   b_reg : registry;
-  b_pending : list pending
+  b_pending : list pending;
+  b_files : cfg_items;     (* the configuration files as they are on disk now (what a reload will read) *)
+  b_next : N               (* next unique-name number *)
 }.
 
 Inductive what :=
 | WProbe                          (* the message that was sent, as is *)
 | WError (name : bytes)           (* an error reply from the bus driver *)
 | WReturn (v : option N)          (* a method return from the bus driver (RequestName carries a number) *)
-| WSignal (member arg : bytes).   (* NameAcquired / NameOwnerChanged from the bus driver, first argument *)
+| WSignal (member arg : bytes)    (* NameAcquired / NameOwnerChanged from the bus driver, first argument *)
+| WRefused.                       (* the connection is closed by the bus after authentication *)
 
 Definition delivery := (N * what)%type.
 
@@ -104,7 +113,7 @@ Definition gate (b : bus) (sender addressed proposed : option N) (m : msg) : ver
   | _, _ => (VAllow, pend)
   end.
 
-Definition set_pending (b : bus) (p : list pending) : bus := mkBus (b_policy b) (b_conns b) (b_reg b) p.
+Definition set_pending (b : bus) (p : list pending) : bus := mkBus (b_policy b) (b_conns b) (b_reg b) p (b_files b) (b_next b).
 
 (* messages that originate from the bus driver *)
 Definition driver_msg (ty : N) (path iface member error dest : option bytes) (reply_serial : N) : msg :=
@@ -178,7 +187,8 @@ Fixpoint reg_set (reg : registry) (name : bytes) (q : list N) : registry :=
   | (n, q0) :: t => if bytes_eqb n name then (n, q) :: t else (n, q0) :: reg_set t name q
   end.
 
-Definition set_reg (b : bus) (r : registry) : bus := mkBus (b_policy b) (b_conns b) r (b_pending b).
+Definition set_reg (b : bus) (r : registry) : bus := mkBus (b_policy b) (b_conns b) r (b_pending b) (b_files b) (b_next b).
+Definition set_conns (b : bus) (l : list conn) : bus := mkBus (b_policy b) l (b_reg b) (b_pending b) (b_files b) (b_next b).
 
 Inductive step_result :=
 | Fault (why : N)                               (* 1 = no such connection, 2 = own rule with prefix and no name, 3 = not modelled *)
@@ -226,12 +236,12 @@ Definition add_match (b : bus) (s : N) (rule_text : bytes) (m : msg) : handled :
   | None => HFault 1
   | Some c =>
       if bytes_eqb rule_text s_match_signal then
-        let b1 := mkBus (b_policy b) (set_nth (b_conns b) (N.to_nat s) (mkConn (c_uid c) (c_rules c) (c_name c) true (c_eav c))) (b_reg b) (b_pending b) in
+        let b1 := set_conns b (set_nth (b_conns b) (N.to_nat s) (mkConn (c_alive c) (c_uid c) (c_gids c) (c_atc c) (c_rules c) (c_name c) true (c_eav c))) in
         HOk b1 (from_driver b1 s (return_msg b1 s m) (WReturn None))
       else if bytes_eqb rule_text s_match_eavesdrop then
         (* bus_driver_check_caller_is_privileged: only root (the daemon is assumed to run as root) may eavesdrop *)
         if negb (c_uid c =? 0) then HErr b (error_reply b s DBUS_ERROR_ACCESS_DENIED_str m) else
-        let b1 := mkBus (b_policy b) (set_nth (b_conns b) (N.to_nat s) (mkConn (c_uid c) (c_rules c) (c_name c) (c_sig c) true)) (b_reg b) (b_pending b) in
+        let b1 := set_conns b (set_nth (b_conns b) (N.to_nat s) (mkConn (c_alive c) (c_uid c) (c_gids c) (c_atc c) (c_rules c) (c_name c) (c_sig c) true)) in
         HOk b1 (from_driver b1 s (return_msg b1 s m) (WReturn None))
       else HFault 3
   end.
@@ -240,11 +250,38 @@ Definition to_driver_iface_ok (m : msg) : bool :=
   obytes_is (m_path m) DBUS_PATH_DBUS_str &&
   match m_iface m with None => true | Some i => bytes_eqb i DBUS_INTERFACE_DBUS_str end.
 
+(* what the daemon is started with, besides the configuration *)
+Record env := mkEnv {
+  e_mk : policy -> N -> list N -> bool -> list rule;   (* [create_client_policy] in the daemon; [client_rules] = documented semantics *)
+  e_ru : name_resolver;                                 (* user database: name -> uid *)
+  e_rg : name_resolver;                                 (* group database: name -> gid *)
+  e_owner : N                                           (* uid the daemon runs as *)
+}.
+
+Definition s_ReloadConfig : bytes := [82; 101; 108; 111; 97; 100; 67; 111; 110; 102; 105; 103].
+
+(* bus_connections_reload_policy: every completed connection gets a freshly built client policy *)
+Definition reload_conn (e : env) (p : policy) (c : conn) : conn :=
+  if c_alive c then mkConn true (c_uid c) (c_gids c) (c_atc c) (e_mk e p (c_uid c) (c_gids c) (c_atc c)) (c_name c) (c_sig c) (c_eav c)
+  else c.
+
+(* bus_driver_handle_reload_config -> bus_context_reload_config: the files are parsed again; on error nothing changes
+   and the error goes back to the caller; on success the new bus-wide policy is installed and all client policies are
+   rebuilt before the reply is sent.  Names, match rules and pending replies are not touched. *)
+Definition do_reload (e : env) (b : bus) (s : N) (m : msg) : handled :=
+  match load_config (e_ru e) (e_rg e) (b_files b) with
+  | LErr absent => HErr b (error_reply b s (if absent then DBUS_ERROR_FILE_NOT_FOUND_str else DBUS_ERROR_FAILED_str) m)
+  | LOk p =>
+      let b1 := mkBus p (map (reload_conn e p) (b_conns b)) (b_reg b) (b_pending b) (b_files b) (b_next b) in
+      HOk b1 (from_driver b1 s (return_msg b1 s m) (WReturn None))
+  end.
+
 (* bus_dispatch for a message from the active connection [s]; [arg] is the first (string) argument of the body *)
-Definition do_send (b : bus) (s : N) (m : msg) (arg : bytes) : step_result :=
+Definition do_send (e : env) (b : bus) (s : N) (m : msg) (arg : bytes) : step_result :=
   match get_conn b s with
   | None => Fault 1
-  | Some _ =>
+  | Some cs =>
+      if negb (c_alive cs) then Done b [] else
       match m_dest m with
       | Some d =>
           if bytes_eqb d DBUS_SERVICE_DBUS_str then
@@ -259,6 +296,7 @@ Definition do_send (b : bus) (s : N) (m : msg) (arg : bytes) : step_result :=
                        else if obytes_is (m_member m) s_RequestName then request_name b1 s arg m
                        else if obytes_is (m_member m) s_AddMatch then add_match b1 s arg m
                        else if obytes_is (m_member m) s_GetId then HOk b1 (from_driver b1 s (return_msg b1 s m) (WReturn None))
+                       else if obytes_is (m_member m) s_ReloadConfig then do_reload e b1 s m
                        else HFault 3 in
               match h with
               | HFault k => Fault k
@@ -277,39 +315,57 @@ Definition do_send (b : bus) (s : N) (m : msg) (arg : bytes) : step_result :=
       end
   end.
 
-(* connect + Hello: bus_driver_handle_hello *)
-Definition do_connect (mk : policy -> N -> list N -> bool -> list rule)
-           (b : bus) (uid : N) (gids : list N) (at_console : bool) (uname : bytes) (hello_serial : N) : step_result :=
+(* create_unique_client_name: ":1.<n>" *)
+Fixpoint dec_digits (fuel : nat) (n : N) (acc : bytes) : bytes :=
+  match fuel with
+  | O => acc
+  | S f => let acc' := (48 + n mod 10) :: acc in if n <? 10 then acc' else dec_digits f (n / 10) acc'
+  end.
+Definition unique_name (n : N) : bytes := [58; 49; 46] ++ dec_digits 40 n [].
+
+(* a new connection authenticates: allow_unix_user_function -> bus_policy_allow_unix_user decides whether it may stay;
+   then Hello: bus_driver_handle_hello.  [db_groups]: the groups of [uid] in the user database (None: unknown uid) *)
+Definition do_connect (e : env) (b : bus) (uid : N) (gids : list N) (at_console : bool) (db_groups : option (list N)) (hello_serial : N) : step_result :=
   let n := N.of_nat (length (b_conns b)) in
-  let c := mkConn uid (mk (b_policy b) uid gids at_console) uname false false in
-  let b1 := mkBus (b_policy b) (b_conns b ++ [c]) (reg_set (b_reg b) uname [n]) (b_pending b) in
+  if negb (allow_unix_user (b_policy b) (uid =? e_owner e) uid db_groups) then
+    Done (set_conns b (b_conns b ++ [mkConn false uid gids at_console [] [] false false])) [(n, WRefused)]
+  else
+  let uname := unique_name (b_next b) in
+  let c := mkConn true uid gids at_console (e_mk e (b_policy b) uid gids at_console) uname false false in
+  let b1 := mkBus (b_policy b) (b_conns b ++ [c]) (reg_set (b_reg b) uname [n]) (b_pending b) (b_files b) (b_next b + 1) in
   let hello := mkMsg DBUS_MESSAGE_TYPE_METHOD_CALL (Some DBUS_PATH_DBUS_str) (Some DBUS_INTERFACE_DBUS_str) None None
                      (Some DBUS_SERVICE_DBUS_str) None 0 0 hello_serial false in
   Done b1 (from_driver b1 n (return_msg b1 n hello) (WReturn None) ++ name_acquired b1 n uname ++ name_owner_changed b1 uname).
 
 Inductive op :=
-| OConnect (uid : N) (gids : list N) (at_console : bool) (uname : bytes) (hello_serial : N)
-| OSend (s : N) (m : msg) (arg : bytes).
+| OConnect (uid : N) (gids : list N) (at_console : bool) (db_groups : option (list N)) (hello_serial : N)
+| OSend (s : N) (m : msg) (arg : bytes)
+| OWrite (files : cfg_items).     (* the administrator changes the configuration files; nothing happens until a reload *)
 
-(* [mk] builds the rule list of a new connection: [create_client_policy] in the
-   daemon; [client_rules] (no pruning) is the documented semantics *)
-Definition step_with (mk : policy -> N -> list N -> bool -> list rule) (b : bus) (o : op) : step_result :=
+Definition step_with (e : env) (b : bus) (o : op) : step_result :=
   match o with
-  | OConnect uid gids atc uname hs => do_connect mk b uid gids atc uname hs
-  | OSend s m arg => do_send b s m arg
+  | OConnect uid gids atc dbg hs => do_connect e b uid gids atc dbg hs
+  | OSend s m arg => do_send e b s m arg
+  | OWrite files => Done (mkBus (b_policy b) (b_conns b) (b_reg b) (b_pending b) files (b_next b)) []
   end.
 
-Definition step (b : bus) (o : op) : step_result := step_with create_client_policy b o.
+Definition daemon_env (ru rg : name_resolver) : env := mkEnv create_client_policy ru rg 0.
+Definition step (ru rg : name_resolver) (b : bus) (o : op) : step_result := step_with (daemon_env ru rg) b o.
 
-Definition bus_init (p : policy) : bus := mkBus p [] [] [].
+(* start of the daemon on a configuration tree *)
+Definition bus_start (e : env) (files : cfg_items) : option bus :=
+  match load_config (e_ru e) (e_rg e) files with
+  | LErr _ => None
+  | LOk p => Some (mkBus p [] [] [] files 0)
+  end.
 
 (* run a script; the result is one delivery list per operation *)
-Fixpoint run (b : bus) (ops : list op) : option (list (list delivery)) :=
+Fixpoint run (e : env) (b : bus) (ops : list op) : option (list (list delivery)) :=
   match ops with
   | [] => Some []
   | o :: t =>
-      match step b o with
+      match step_with e b o with
       | Fault _ => None
-      | Done b1 out => match run b1 t with Some r => Some (out :: r) | None => None end
+      | Done b1 out => match run e b1 t with Some r => Some (out :: r) | None => None end
       end
   end.
